@@ -42,7 +42,7 @@ SCEN = ["params_value", "params_vary", "params_minmax", "params_expr",
         "prep_list_via_fit", "returned_params", "returned_params_unpassed",
         "prep_list_unpassed", "force_array", "rater_arrays", "model_args",
         "rate_names_list", "rate_training_set_arrays",
-        "handed_out_preproc_attrs"]
+        "handed_out_preproc_attrs", "full_respec", "full_respec"]
 
 
 def shards(tier):
@@ -283,6 +283,55 @@ def scenario(rec, rng, cid):
                   "a fresh curve fitted once with the edited values" % d,
                   case)
         rec.evaluated(dg=(sc, kw, o0, o1, spec))
+    elif sc == "full_respec":
+        # "the effect of a call depends only on the argument values at the
+        # time of the call": a call that spells out every setting gives the
+        # same result on a curve that was used before (with ONE setting
+        # different) as on a curve that sees it for the first time
+        a = twins()[0]
+        c = twins()[0]
+        for t in (a, c):
+            t.apply_preprocessing(list(pipe))
+        mk = spec["model"]
+        p = copy.deepcopy(a.get_initial_fit_parameters(model_key=mk))
+        p["E"].value = spec["params"]["E"] * float(rng.uniform(.6, 1.6))
+        if "R" in p:
+            p["R"].value = spec["params"]["R"]       # non-default geometry
+        if rng.random() < .5:
+            p["baseline"].vary = False
+        full = dict(model_key=mk, params_initial=p,
+                    segment=int(rng.integers(2)), range_type="absolute",
+                    range_x=[[0, 0], [-2e-6, 1e-6]][int(rng.integers(2))],
+                    weight_cp=float(rng.choice([0, 5e-7])),
+                    gcf_k=float(rng.choice([1.0, .5])), method="leastsq",
+                    method_kws={}, x_axis="tip position", y_axis="force",
+                    optimal_fit_edelta=False, optimal_fit_num_samples=9)
+        other = {"segment": 1 - full["segment"],
+                 "weight_cp": 2.5e-7, "range_x": [-1e-6, 5e-7],
+                 "gcf_k": 2.0, "method": "nelder",
+                 "model_key": "hertz_cone" if mk != "hertz_cone"
+                 else "hertz_para",
+                 "range_type": "relative cp"}
+        key = sorted(other)[int(rng.integers(len(other)))]
+        first = dict(copy.deepcopy(full), **{key: other[key]})
+        if key == "model_key":
+            first.pop("params_initial")
+        case["settings"] = {k: v for k, v in full.items()
+                            if k != "params_initial"}
+        case["first_call_differs_in"] = key
+        try:
+            a.fit_model(**first)
+        except BaseException:  # noqa
+            pass
+        g.call("fit_model", a.fit_model, **copy.deepcopy(full))
+        c.fit_model(**copy.deepcopy(full))
+        rec.event("twin states compared")
+        d = c03.same(c03.snapshot(a), c03.snapshot(c))
+        rec.check(d is None, "history-dependence/full_respec/" + key,
+                  "a call that spells out every setting gives another '%s' "
+                  "on a curve fitted before with a different %s than on a "
+                  "fresh curve" % (d, key), case)
+        rec.evaluated(dg=(sc, key, case["settings"], spec))
     elif sc in ("prep_list", "prep_options", "prep_list_via_fit",
                 "prep_list_unpassed"):
         a, b = twins()
